@@ -1,6 +1,6 @@
 (* Props/C17.v — C17: whitespace, entity and attribute normalisation preserves meaning.
    Statements only; each is closed by [exact] of a lemma proved in Normalise/*Proofs.v. *)
-From Verif Require Import Common.Base Normalise.Model Normalise.Spec Normalise.WsProofs Normalise.EscProofs Normalise.EntProofs Normalise.AttrProofs.
+From Verif Require Import Common.Base Normalise.Model Normalise.Spec Normalise.WsProofs Normalise.EscProofs Normalise.EntProofs Normalise.AttrProofs Normalise.Compose.
 
 (* ReplaceMultipleWhitespace (the in-place j/k compaction with its three exit cases) neither panics nor
    runs out of fuel and returns the unique o with [Collapse false b o]: b cut into maximal runs of
@@ -35,6 +35,16 @@ Theorem entities_preserve_decoding_refuted :
     replace_entities em rm b = Ok o /\ html_decode o <> html_decode b.
 Proof. exact entities_preserve_decoding_refuted_proof. Qed.
 Print Assumptions entities_preserve_decoding_refuted.
+
+(* ReplaceMultipleWhitespaceAndEntities (one loop doing both, entities replaced before later runs are
+   compacted) neither panics nor runs out of fuel and returns exactly what ReplaceEntities returns on the
+   result of ReplaceMultipleWhitespace.  All byte strings, all consistent entity maps. *)
+Theorem ws_and_entities_compose :
+  forall em rm, maps_ok em rm = true -> forall b,
+    exists o, replace_ws_and_entities em rm b = Ok o /\
+              replace_multiple_ws b = Ok (collapse b) /\ replace_entities em rm (collapse b) = Ok o.
+Proof. exact ws_and_entities_compose_proof. Qed.
+Print Assumptions ws_and_entities_compose.
 
 (* xml.EscapeCDATAVal either declines (returns its input; exactly when escaping costs more than the
    12 bytes of the CDATA wrapper) or returns text without '<' that un-escapes to its input, for every
